@@ -132,6 +132,7 @@ type env struct {
 	results chan hs.AcceptResult
 	appOpts []nodeenrollment.Option
 	wg      sync.WaitGroup
+	first   *party // party A of a schedule (a later party may share its identity)
 }
 
 func newEnv(seed int64, spare, acceptors int, sw, lstate bool, bare ...bool) (*env, error) {
@@ -162,6 +163,9 @@ func newEnv(seed int64, spare, acceptors int, sw, lstate bool, bare ...bool) (*e
 	srv.W.Rec.Gate = func(op world.OpRec) {
 		if op.Op == "Remove" && op.Type == "ServerLedActivationToken" {
 			e.g.hit("tokenRemove:" + op.Id)
+		}
+		if op.Op == "Load" && op.Type == "NodeInformation" {
+			e.g.hit("niLoad:" + op.Id)
 		}
 	}
 	for i := 0; i < acceptors; i++ {
@@ -251,6 +255,45 @@ func (e *env) mkParty(name, kind, stateName, marker string) (*party, error) {
 		}
 		p.store = st
 		p.opts = []nodeenrollment.Option{nodeenrollment.WithActivationToken(tok), nodeenrollment.WithExtraAlpnProtos([]string{marker})}
+	case "poll":
+		// a node nobody has authorised (yet) polling for its credentials
+		st, _ := inmem.New(w.Ctx)
+		if _, err := types.NewNodeCredentials(w.Ctx, st); err != nil {
+			return nil, err
+		}
+		p.store = st
+		p.opts = []nodeenrollment.Option{nodeenrollment.WithExtraAlpnProtos([]string{marker})}
+	case "tokenSame":
+		// the identity of the first party (same keys) presenting an activation token
+		if e.first == nil {
+			return nil, fmt.Errorf("tokenSame needs a first party")
+		}
+		var topts []nodeenrollment.Option
+		if p.state != nil {
+			topts = append(topts, nodeenrollment.WithState(p.state))
+		}
+		id, tok, err := registration.CreateServerLedActivationToken(w.Ctx, w.Store, &types.ServerLedRegistrationRequest{}, w.StorageOpts(topts...)...)
+		if err != nil {
+			return nil, err
+		}
+		p.tokId = id
+		fresh, err := types.NewNodeCredentials(w.Ctx, func() nodeenrollment.Storage { s, _ := inmem.New(w.Ctx); return s }(), nodeenrollment.WithActivationToken(tok))
+		if err != nil {
+			return nil, err
+		}
+		own, err := types.LoadNodeCredentials(w.Ctx, e.first.store, nodeenrollment.CurrentId)
+		if err != nil {
+			return nil, err
+		}
+		same := proto.Clone(own).(*types.NodeCredentials)
+		same.CertificateBundles = nil
+		same.RegistrationNonce = fresh.RegistrationNonce
+		st, _ := inmem.New(w.Ctx)
+		if err := same.Store(w.Ctx, st); err != nil {
+			return nil, err
+		}
+		p.store = st
+		p.opts = []nodeenrollment.Option{nodeenrollment.WithActivationToken(tok), nodeenrollment.WithExtraAlpnProtos([]string{marker})}
 	case "baseA", "baseB":
 		// a plain TLS client of the application (no library protocol), offering its own ALPN name
 		p.marker = map[string]string{"baseA": "app-proto", "baseB": "h2"}[kind] // both are in the non-bare base configuration's list
@@ -278,6 +321,13 @@ func (e *env) gateKey(p *party, gate string) string {
 	switch gate {
 	case "tokenRemove":
 		return "tokenRemove:" + p.tokId
+	case "niLoad":
+		creds, err := types.LoadNodeCredentials(e.srv.W.Ctx, p.store, nodeenrollment.CurrentId)
+		if err != nil {
+			return gate + ":?"
+		}
+		kid, _ := nodeenrollment.KeyIdFromPkix(creds.CertificatePublicKeyPkix)
+		return "niLoad:" + kid
 	case "unwrap1", "unwrap2", "unwrap3", "unwrap4":
 		return "unwrap:" + gate[len("unwrap"):]
 	case "genBefore", "genAfter":
@@ -358,7 +408,13 @@ func (e *env) judge(p *party, d dialRes, results []hs.AcceptResult) (outcome str
 			return "rejected", true, true
 		}
 		return "failed", ownState, ownProtos
-	case "token":
+	case "poll":
+		// (an authenticated connection of the same key may exist: the other party's)
+		if d.err != nil {
+			return "rejected", true, true
+		}
+		return "failed", true, true
+	case "token", "tokenSame":
 		if cerr != nil {
 			return "failed", false, ownProtos
 		}
@@ -399,7 +455,7 @@ func want(kind string) string {
 		return "base"
 	case "auth":
 		return "auth"
-	case "token":
+	case "token", "tokenSame":
 		return "enrolled"
 	}
 	return "rejected"
@@ -421,6 +477,7 @@ func schedule(op map[string]any, ln *Line, seed int64) {
 		ln.Res, ln.Obs.Msg = "setup-error", err.Error()
 		return
 	}
+	e.first = a
 	b, err := e.mkParty("k2", str(op, "b"), "sB", "conn-B")
 	if err != nil {
 		ln.Res, ln.Obs.Msg = "setup-error", err.Error()
